@@ -88,7 +88,7 @@ CHECKS = {
         "CrossHair (z3) path exploration of block trees x declaration-kind rotations x raising-callback index on the real CxxParser with a recording visitor; oracles: skeleton derived from the tree, Dyck/parent/state-kind invariants, independent fold vs SimpleCxxVisitor, exception chaining",
         "Bounded and exhaustive inside the bound: every block tree up to the stated size, with declaration slots cycling through every callback kind, and for each of them every callback position at which a visitor may raise (and no fault), "
         "is run through the real parser; 'Confirmed over all paths' per shard means z3 showed every unexplored branch of the choice tree infeasible.",
-        "Bound: <=2 blocks depth 2 (quick) / <=3 blocks depth 3 (thorough), 7 block spellings, 18 payload rotations. The parser runs concretely per path. State kinds are read from typing.get_type_hints(CxxVisitor). "
+        "Bound: <=2 blocks depth 2 with 18 payload rotations (quick); thorough adds <=3 blocks depth 3 with every fourth rotation; 7 block spellings. The parser runs concretely per path. State kinds are read from typing.get_type_hints(CxxVisitor). "
         "Trusted: CrossHair, z3, the skeleton and fold oracles (vf/blocks.py, vf/props/c04.py).",
         "DESIGN.md 3/C04",
     ),
